@@ -464,7 +464,7 @@ def program(pl, seed, n_points, fixed=None):
          'fn close(got: f64, want: f64) -> bool { (got - want).abs() <= 1e-9 * (1.0 + want.abs()) || (got.is_nan() && want.is_nan()) }',
          'fn weird(x: f64) -> bool { x.is_nan() || x.is_infinite() }',
          'fn main() {', '    let mut st: u64 = %du64.wrapping_mul(6364136223846793005).wrapping_add(1442695040888963407);' % seed,
-         '    let mut rnd = move || -> i64 { st = st.wrapping_mul(6364136223846793005).wrapping_add(1442695040888963407); ((st >> 33) %% 9) as i64 - 4 };',
+         '    let mut rnd = move || -> i64 { st = st.wrapping_mul(6364136223846793005).wrapping_add(1442695040888963407); ((st >> 33) % 9) as i64 - 4 };',
          '    let mut used = 0usize;',
          '    for it in 0..%d {' % n_points]
     k = 0
